@@ -294,5 +294,532 @@ theorem embedded_ref_accepted (pre path post : Str)
   have := simple_ref_accepted pre path post hpre hpath hne hpost
   simpa [litOpt, pack, hpre', hpost'] using this
 
+/-! ### 5. Escaped markers are literal text -/
+
+/-- On the *reversed* text before a position: the character just before is a backslash and
+the one before that (if any) is not. -/
+def escTail (rp : Str) : Bool := rp.head? == some '\\' && rp.tail.head? != some '\\'
+
+/-- Is a `${` placed right after `pre` escaped, i.e. does `pre` end in exactly… a backslash
+that is not itself preceded by a backslash? -/
+def escapedBy (pre : Str) : Bool := escTail pre.reverse
+
+/-- Position `i` of `s` is an *unescaped* reference opening: `${` starts there and it is not
+the case that (char `i-1` is `\` and (`i < 2` or char `i-2` is not `\`)). -/
+def unescapedOpenAt (s : Str) (i : Nat) : Bool :=
+  startsWith (s.drop i) ['$', '{'] && !escapedBy (s.take i)
+
+/-- What the grammar makes of a string all of whose `${` are escaped: a left-to-right scan,
+"at item start" (`true`) initially and after each escape.
+* `\${` ↦ `${` and `\$[` ↦ `$[` (anywhere), back to item start;
+* only at item start, `\\}` ↦ `\}` (the `double_escape` alternative of `string` fires only
+  as the first thing of an item; in the middle of a `content` run `\\}` is copied as is);
+* every other character is copied and leaves item-start mode.
+(`\\${` never occurs in such strings: its `${` would be unescaped.) -/
+def unescapeFrom : Bool → Str → Str
+  | _, [] => []
+  | _, '\\' :: '$' :: '{' :: r => '$' :: '{' :: unescapeFrom true r
+  | _, '\\' :: '$' :: '[' :: r => '$' :: '[' :: unescapeFrom true r
+  | true, '\\' :: '\\' :: '}' :: r => '\\' :: '}' :: unescapeFrom false r
+  | _, c :: r => c :: unescapeFrom false r
+
+def unescape (s : Str) : Str := unescapeFrom true s
+
+theorem unescapeFrom_refEsc (b : Bool) (r : Str) :
+    unescapeFrom b ('\\' :: '$' :: '{' :: r) = '$' :: '{' :: unescapeFrom true r := by
+  cases b <;> simp [unescapeFrom]
+
+theorem unescapeFrom_invEsc (b : Bool) (r : Str) :
+    unescapeFrom b ('\\' :: '$' :: '[' :: r) = '$' :: '[' :: unescapeFrom true r := by
+  cases b <;> simp [unescapeFrom]
+
+theorem unescapeFrom_dbl (r : Str) :
+    unescapeFrom true ('\\' :: '\\' :: '}' :: r) = '\\' :: '}' :: unescapeFrom false r := by
+  simp [unescapeFrom]
+
+theorem unescapeFrom_copy (b : Bool) (c : Char) (r : Str)
+    (h1 : startsWith (c :: r) ['\\', '$', '{'] = false)
+    (h2 : startsWith (c :: r) ['\\', '$', '['] = false)
+    (h3 : b = true → startsWith (c :: r) ['\\', '\\', '}'] = false) :
+    unescapeFrom b (c :: r) = c :: unescapeFrom false r := by
+  conv => lhs; unfold unescapeFrom
+  split
+  · rename_i heq; cases heq
+  · rename_i heq; cases heq; simp [startsWith] at h1
+  · rename_i heq; cases heq; simp [startsWith] at h2
+  · rename_i heq; cases heq; simp [startsWith] at h3
+  · rename_i heq; cases heq; rfl
+
+/-- The running form of "no unescaped `${` from here on", given the reversed text before. -/
+def escOk (rp : Str) : Str → Bool
+  | [] => true
+  | c :: cs => (!startsWith (c :: cs) ['$', '{'] || escTail rp) && escOk (c :: rp) cs
+
+theorem escOk_of_noOpen_aux : ∀ (suf pre : Str),
+    (∀ i, unescapedOpenAt (pre ++ suf) i = false) → escOk pre.reverse suf = true
+  | [], _, _ => rfl
+  | c :: cs, pre, h => by
+    have h0 := h pre.length
+    simp only [unescapedOpenAt, List.drop_left, List.take_left, escapedBy] at h0
+    have ih := escOk_of_noOpen_aux cs (pre ++ [c]) (by simpa using h)
+    simp only [List.reverse_append, List.reverse_cons, List.reverse_nil, List.nil_append,
+      List.singleton_append] at ih
+    simp only [escOk, ih, Bool.and_true]
+    cases hs : startsWith (c :: cs) ['$', '{'] with
+    | false => rfl
+    | true => rw [hs] at h0; simpa using h0
+
+theorem escOk_of_noOpen {s : Str} (h : ∀ i, unescapedOpenAt s i = false) : escOk [] s = true :=
+  escOk_of_noOpen_aux s [] h
+
+theorem escOk_not_open {rp i : Str} (h : escOk rp i = true) (hrp : escTail rp = false) :
+    startsWith i ['$', '{'] = false := by
+  cases i with
+  | nil => rfl
+  | cons c cs =>
+    simp only [escOk, hrp, Bool.or_false, Bool.and_eq_true, Bool.not_eq_true'] at h
+    exact h.1
+
+theorem escOk_tail {rp : Str} {c : Char} {cs : Str} (h : escOk rp (c :: cs) = true) :
+    escOk (c :: rp) cs = true := by
+  simp only [escOk, Bool.and_eq_true] at h
+  exact h.2
+
+theorem escOk_no_dbl {rp i : Str} (h : escOk rp i = true) :
+    startsWith i ['\\', '\\', '$', '{'] = false := by
+  cases hb : startsWith i ['\\', '\\', '$', '{'] with
+  | false => rfl
+  | true =>
+    obtain ⟨r, hr⟩ := (startsWith_iff_prefix _ _).1 hb
+    subst hr
+    have h2 := escOk_tail (escOk_tail h)
+    have := escOk_not_open h2 (by simp [escTail])
+    simp [startsWith] at this
+
+/-- In a string without unescaped `${`, the position after a character that did not start
+`\${` is not a `${`. -/
+theorem next_not_open {rp : Str} {c : Char} {r : Str} (h : escOk rp (c :: r) = true)
+    (hc : startsWith (c :: r) ['\\', '$', '{'] = false) : startsWith r ['$', '{'] = false := by
+  cases hb : startsWith r ['$', '{'] with
+  | false => rfl
+  | true =>
+    have h1 := escOk_tail h
+    obtain ⟨x, hx⟩ := (startsWith_iff_prefix _ _).1 hb
+    subst hx
+    simp only [List.cons_append, List.nil_append] at h1 hc
+    simp only [escOk, Bool.and_eq_true, Bool.or_eq_true, Bool.not_eq_true'] at h1
+    rcases h1.1 with h2 | h2
+    · simp [startsWith] at h2
+    · have : c = '\\' := by
+        simp only [escTail, List.head?_cons, Bool.and_eq_true, beq_iff_eq, Option.some.injEq] at h2
+        exact h2.1
+      subst this
+      simp [startsWith] at hc
+
+/-- Where a `content` run may stop in such a string. -/
+def StopAt (i : Str) : Prop :=
+  i = [] ∨ startsWith i ['\\', '$', '{'] = true ∨ startsWith i ['\\', '$', '['] = true
+
+theorem StopAt.not_open {i : Str} (h : StopAt i) : startsWith i ['$', '{'] = false := by
+  rcases h with h | h | h
+  · subst h; rfl
+  · obtain ⟨r, hr⟩ := (startsWith_iff_prefix _ _).1 h; subst hr; rfl
+  · obtain ⟨r, hr⟩ := (startsWith_iff_prefix _ _).1 h; subst hr; rfl
+
+theorem StopAt.unescape_irrel {i : Str} (h : StopAt i) (b b' : Bool) :
+    unescapeFrom b i = unescapeFrom b' i := by
+  rcases h with h | h | h
+  · subst h; cases b <;> cases b' <;> rfl
+  · obtain ⟨r, hr⟩ := (startsWith_iff_prefix _ _).1 h; subst hr
+    simp only [List.cons_append, List.nil_append]
+    rw [unescapeFrom_refEsc, unescapeFrom_refEsc]
+  · obtain ⟨r, hr⟩ := (startsWith_iff_prefix _ _).1 h; subst hr
+    simp only [List.cons_append, List.nil_append]
+    rw [unescapeFrom_invEsc, unescapeFrom_invEsc]
+
+theorem refNotOpen_false_stop {rp i : Str} (h : escOk rp i = true)
+    (ho : startsWith i ['$', '{'] = false) (hn : refNotOpen i = false) : StopAt i := by
+  have hd := escOk_no_dbl h
+  simp only [refNotOpen, ho, hd, Bool.not_false, Bool.true_and, Bool.and_true] at hn
+  cases h1 : startsWith i ['\\', '$', '{'] with
+  | true => exact Or.inr (Or.inl h1)
+  | false =>
+    cases h2 : startsWith i ['\\', '$', '['] with
+    | true => exact Or.inr (Or.inr h2)
+    | false => simp [h1, h2] at hn
+
+/-- A `content` run inside a string without unescaped `${`: it copies exactly what it
+consumes, stops at the end or at an escape, and agrees with `unescapeFrom false`. -/
+theorem content_esc : ∀ (r rp : Str), escOk rp r = true → startsWith r ['$', '{'] = false →
+    r = (content r).1 ++ (content r).2 ∧
+    escOk ((content r).1.reverse ++ rp) (content r).2 = true ∧
+    StopAt (content r).2 ∧
+    unescapeFrom false r = (content r).1 ++ unescapeFrom false (content r).2
+  | [], rp, _, _ => by
+    have : content [] = ([], []) := rfl
+    rw [this]
+    exact ⟨rfl, rfl, Or.inl rfl, rfl⟩
+  | c :: r, rp, h, ho => by
+    rw [content_cons]
+    by_cases hn : refNotOpen (c :: r) = true
+    · simp only [hn, if_true]
+      have hn' := hn
+      simp only [refNotOpen, Bool.and_eq_true, Bool.not_eq_true'] at hn'
+      obtain ⟨⟨⟨_, h1⟩, _⟩, h2⟩ := hn'
+      obtain ⟨e1, e2, e3, e4⟩ := content_esc r (c :: rp) (escOk_tail h) (next_not_open h h1)
+      refine ⟨?_, ?_, e3, ?_⟩
+      · rw [List.cons_append, ← e1]
+      · simpa using e2
+      · rw [unescapeFrom_copy false c r h1 h2 (by simp), e4]; rfl
+    · have hn' : refNotOpen (c :: r) = false := by simpa using hn
+      simp only [hn', Bool.false_eq_true, if_false]
+      refine ⟨rfl, h, refNotOpen_false_stop h ho hn', rfl⟩
+
+theorem content_length_le (r : Str) : (content r).2.length ≤ r.length :=
+  scan_length_le _ _ _
+
+/-- The item loop on a string without unescaped `${`: only literals, whose concatenation is
+`unescapeFrom true`. -/
+theorem items_esc : ∀ (n : Nat) (i rp : Str), i.length + 2 ≤ n → escOk rp i = true →
+    startsWith i ['$', '{'] = false →
+    ∃ ls : List Str, items n i = .ok (ls.map Token.lit, []) ∧
+      ls.flatten = unescapeFrom true i ∧ (i ≠ [] → ls ≠ []) := by
+  intro n
+  induction n with
+  | zero => intro i _ h; omega
+  | succ n ih =>
+    intro i rp hl h ho
+    cases i with
+    | nil =>
+      match n, hl with
+      | m + 1, _ => exact ⟨[], items_nil, rfl, fun h => absurd rfl h⟩
+    | cons c r =>
+      simp only [List.length_cons] at hl
+      have hr : reference n (c :: r) = .error .fail := by
+        match n, hl with
+        | m + 1, _ => exact reference_not_open ho
+      cases hd : doubleEscape (c :: r) with
+      | some p =>
+        obtain ⟨s, rest⟩ := p
+        obtain ⟨hi, hs, hnext⟩ := doubleEscape_some hd
+        subst hs
+        simp only [List.cons.injEq] at hi
+        obtain ⟨hc, hr'⟩ := hi
+        subst hc hr'
+        have hclose : startsWith rest ['}'] = true := by
+          rcases hnext with hx | hx
+          · have := escOk_no_dbl h
+            obtain ⟨x, hx'⟩ := (startsWith_iff_prefix _ _).1 hx
+            subst hx'
+            simp [startsWith] at this
+          · exact hx
+        obtain ⟨r', hr'⟩ := (startsWith_iff_prefix _ _).1 hclose
+        subst hr'
+        simp only [List.cons_append, List.nil_append, List.length_cons] at hl h hd hr ho ⊢
+        obtain ⟨ls, e1, e2, _⟩ := ih ('}' :: r') ('\\' :: '\\' :: rp) (by simp only [List.length_cons]; omega)
+          (escOk_tail (escOk_tail h)) (by simp [startsWith])
+        refine ⟨['\\'] :: ls, ?_, ?_, by simp⟩
+        · rw [items_str hr (stringP_of_doubleEscape hd), e1]; rfl
+        · rw [List.flatten_cons, e2, unescapeFrom_dbl,
+            unescapeFrom_copy true '}' r' (by simp [startsWith]) (by simp [startsWith])
+              (by simp [startsWith])]
+          rfl
+      | none =>
+        cases h1 : refEscapeOpen (c :: r) with
+        | some p =>
+          obtain ⟨s, rest⟩ := p
+          obtain ⟨hi, hs⟩ := refEscapeOpen_some h1
+          subst hs
+          simp only [List.cons.injEq] at hi
+          obtain ⟨hc, hr'⟩ := hi
+          subst hc hr'
+          simp only [List.length_cons] at hl
+          have h3 := escOk_tail (escOk_tail (escOk_tail h))
+          obtain ⟨ls, e1, e2, _⟩ := ih rest ('{' :: '$' :: '\\' :: rp) (by omega) h3
+            (escOk_not_open h3 (by simp [escTail]))
+          refine ⟨['$', '{'] :: ls, ?_, ?_, by simp⟩
+          · rw [items_str hr (stringP_of_refEscapeOpen hd h1), e1]; rfl
+          · rw [List.flatten_cons, e2, unescapeFrom_refEsc]; rfl
+        | none =>
+          cases h2 : invEscapeOpen (c :: r) with
+          | some p =>
+            obtain ⟨s, rest⟩ := p
+            obtain ⟨hi, hs⟩ := invEscapeOpen_some h2
+            subst hs
+            simp only [List.cons.injEq] at hi
+            obtain ⟨hc, hr'⟩ := hi
+            subst hc hr'
+            simp only [List.length_cons] at hl
+            have h3 := escOk_tail (escOk_tail (escOk_tail h))
+            obtain ⟨ls, e1, e2, _⟩ := ih rest ('[' :: '$' :: '\\' :: rp) (by omega) h3
+              (escOk_not_open h3 (by simp [escTail]))
+            refine ⟨['$', '['] :: ls, ?_, ?_, by simp⟩
+            · rw [items_str hr (stringP_of_invEscapeOpen hd h1 h2), e1]; rfl
+            · rw [List.flatten_cons, e2, unescapeFrom_invEsc]; rfl
+          | none =>
+            have n1 := refEscapeOpen_eq_none h1
+            have n2 := invEscapeOpen_eq_none h2
+            have n3 := (doubleEscape_eq_none hd).1
+            have hno : refNotOpen (c :: r) = true := by
+              simp [refNotOpen, ho, n1, n2, escOk_no_dbl h]
+            obtain ⟨c1, c2, c3, c4⟩ := content_esc r (c :: rp) (escOk_tail h) (next_not_open h n1)
+            have hlen := content_length_le r
+            obtain ⟨ls, e1, e2, _⟩ := ih (content r).2 ((content r).1.reverse ++ c :: rp)
+              (by omega) c2 c3.not_open
+            refine ⟨(c :: (content r).1) :: ls, ?_, ?_, by simp⟩
+            · rw [items_str hr (stringP_of_content hd h1 h2 hno), e1]; rfl
+            · rw [List.flatten_cons, e2, unescapeFrom_copy true c r n1 n2 (fun _ => n3), c4,
+                c3.unescape_irrel true false]
+              rfl
+
+/-- **Escaped markers are literal text.**  If a string contains a marker (`${` or `$[`) but
+every `${` in it is escaped — preceded by a backslash that is not itself preceded by a
+backslash — then `Token::parse` accepts it and the result is the single literal
+`unescape s`: no reference is ever produced.  (`$[` needs no escape; `\$[` loses its
+backslash.) -/
+theorem escaped_only_literal (s : Str) (hm : containsMarker s = true)
+    (h : ∀ i, unescapedOpenAt s i = false) :
+    Token.parse s = .ok (some (.lit (unescape s))) := by
+  have hok := escOk_of_noOpen h
+  have ho := escOk_not_open hok (by simp [escTail])
+  obtain ⟨ls, e1, e2, e3⟩ := items_esc (s.length + 2) s [] (Nat.le_refl _) hok ho
+  have hne : s ≠ [] := by intro h0; subst h0; simp [containsMarker] at hm
+  have hls := e3 hne
+  apply parse_ok_of hm (n := s.length + 2)
+  rw [parseRefF_of_items e1 (by simpa using hls), coalesce_lits ls hls, e2]
+  rfl
+
+/-- … and so it renders as that literal text, whatever the parameters. -/
+theorem escaped_only_renders_literal (n : Nat) (root : Mapping) (st : RState) (s : Str)
+    (hm : containsMarker s = true) (h : ∀ i, unescapedOpenAt s i = false) :
+    interp (n + 3) root (.str s) st = .ok (.lit (unescape s), st) := by
+  simp [interp, escaped_only_literal s hm h, tokRender, tokResolve, rawString]
+
+/-! ### 5b. Escapes next to live references -/
+
+/-- **`\}` inside a reference is a literal `}`**: `${a\}b}` is the reference with the single
+path literal `a}b` — the escaped brace neither closes the reference nor survives as `\}`. -/
+theorem escaped_close_in_ref (a b : Str)
+    (ha : ∀ c ∈ a, c ≠ '$' ∧ c ≠ '\\' ∧ c ≠ '}') (hb : ∀ c ∈ b, c ≠ '$' ∧ c ≠ '\\' ∧ c ≠ '}') :
+    Token.parse ('$' :: '{' :: (a ++ '\\' :: '}' :: (b ++ ['}']))) =
+      .ok (some (.ref [.lit (a ++ '}' :: b)])) := by
+  apply parse_ok_of (n := 6) (containsMarker_open [] _)
+  have hi : items 6 ('$' :: '{' :: (a ++ '\\' :: '}' :: (b ++ ['}']))) =
+      .ok ([.ref [.lit (a ++ '}' :: b)]], []) := by
+    rw [items_ref (reference_escClose (n := 1) ha hb), items_nil]; rfl
+  rw [parseRefF_of_items hi (by simp)]; rfl
+
+/-- **`\\` before `${` is one literal backslash and does *not* escape the reference**:
+`pre\\${path}` is `Combined [Literal (pre ++ "\"), Ref [Literal path]]`. -/
+theorem double_backslash_before_ref (pre path : Str)
+    (hpre : ∀ c ∈ pre, c ≠ '$' ∧ c ≠ '\\')
+    (hpath : ∀ c ∈ path, c ≠ '$' ∧ c ≠ '\\' ∧ c ≠ '}') (hne : path ≠ []) :
+    Token.parse (pre ++ '\\' :: '\\' :: '$' :: '{' :: (path ++ ['}'])) =
+      .ok (some (.combined [.lit (pre ++ ['\\']), .ref [.lit path]])) := by
+  apply parse_ok_of (n := 9) (containsMarker_open (pre ++ ['\\', '\\']) _ |> by simpa using ·)
+  have h7 : items 7 ('$' :: '{' :: (path ++ ['}'])) = .ok ([.ref [.lit path]], []) := by
+    rw [items_ref (reference_simple (n := 2) hne hpath), items_nil]; rfl
+  have h8 : items 8 ('\\' :: '\\' :: '$' :: '{' :: (path ++ ['}'])) =
+      .ok ([.lit ['\\'], .ref [.lit path]], []) := by
+    rw [items_dblEsc, h7]; rfl
+  by_cases h1 : pre = []
+  · subst h1
+    have h9 : items 9 ('\\' :: '\\' :: '$' :: '{' :: (path ++ ['}'])) =
+        .ok ([.lit ['\\'], .ref [.lit path]], []) := by
+      rw [← h8]; exact items_mono (by rw [h8]; simp)
+    rw [List.nil_append, parseRefF_of_items h9 (by simp)]
+    simp [coalesce, pack]
+  · have h9 : items 9 (pre ++ '\\' :: '\\' :: '$' :: '{' :: (path ++ ['}'])) =
+        .ok ([.lit pre, .lit ['\\'], .ref [.lit path]], []) := by
+      rw [items_run (n := 7) h1 hpre (contentStep_dblEsc _), h8]; rfl
+    rw [parseRefF_of_items h9 (by simp)]
+    simp [coalesce, pack]
+
+/-! ### 8. Round trip: printing a well-formed token tree and parsing it back -/
+
+mutual
+/-- The obvious concrete syntax of a token tree (no escapes are needed when the literal
+text is free of `$`, `\`, `}`). -/
+def encode : Token → Str
+  | .lit s => s
+  | .ref ps => '$' :: '{' :: (encodeL ps ++ ['}'])
+  | .combined ps => encodeL ps
+def encodeL : List Token → Str
+  | [] => []
+  | t :: ts => encode t ++ encodeL ts
+end
+
+/-- A character that needs no escaping anywhere: not `$`, `\` or `}`. -/
+def plainChar (c : Char) : Bool := c != '$' && c != '\\' && c != '}'
+
+mutual
+/-- All literal text in the tree consists of `plainChar`s. -/
+def plainTok : Token → Bool
+  | .lit s => s.all plainChar
+  | .ref ps => plainToks ps
+  | .combined ps => plainToks ps
+def plainToks : List Token → Bool
+  | [] => true
+  | t :: ts => plainTok t && plainToks ts
+end
+
+theorem plain_of_all {s : Str} (h : s.all plainChar = true) :
+    ∀ c ∈ s, c ≠ '$' ∧ c ≠ '\\' ∧ c ≠ '}' := by
+  intro c hc
+  have := List.all_eq_true.1 h c hc
+  simp only [plainChar, Bool.and_eq_true, bne_iff_ne, ne_eq] at this
+  exact ⟨this.1.1, this.1.2, this.2⟩
+
+/-- What follows a literal in a list without adjacent literals: nothing, or a `${`. -/
+theorem after_lit {ps : List Token} (hw : Token.wfInnerL ps = true)
+    (hh : headIsLit ps = false) : encodeL ps = [] ∨ ∃ r, encodeL ps = '$' :: '{' :: r := by
+  cases ps with
+  | nil => left; rfl
+  | cons t ts =>
+    right
+    cases t with
+    | lit a => simp [headIsLit, Token.isLit] at hh
+    | ref q => exact ⟨_, by simp [encodeL, encode]; rfl⟩
+    | combined q => simp [Token.wfInnerL, Token.wfInner] at hw
+
+theorem roundtrip_aux : ∀ n,
+    (∀ ps rest, Token.wfInnerL ps = true → noAdjLit ps = true → plainToks ps = true →
+      (encodeL ps ++ '}' :: rest).length + 2 ≤ n →
+      refItems n (encodeL ps ++ '}' :: rest) = .ok (ps, '}' :: rest)) ∧
+    (∀ q rest, (Token.ref q).wfInner = true → plainToks q = true →
+      (encodeL q ++ '}' :: rest).length + 3 ≤ n →
+      reference n ('$' :: '{' :: (encodeL q ++ '}' :: rest)) = .ok (.ref q, rest)) := by
+  intro n
+  induction n with
+  | zero => refine ⟨?_, ?_⟩ <;> intros <;> omega
+  | succ n ih =>
+    obtain ⟨ihA, ihB⟩ := ih
+    refine ⟨?_, ?_⟩
+    · intro ps rest hw ha hp hl
+      cases ps with
+      | nil =>
+        simp only [encodeL, List.nil_append, List.length_cons] at hl ⊢
+        match n, hl with
+        | m + 1, _ => exact refItems_close rest
+      | cons t ts =>
+        simp only [Token.wfInnerL, Bool.and_eq_true] at hw
+        simp only [noAdjLit, Bool.and_eq_true, Bool.not_eq_true'] at ha
+        simp only [plainToks, Bool.and_eq_true] at hp
+        cases t with
+        | lit a =>
+          simp only [Token.isLit, Bool.true_and] at ha
+          have hane : a ≠ [] := by
+            intro h0; subst h0; simp [Token.wfInner] at hw
+          have hstop : refStringStep (encodeL ts ++ '}' :: rest) = none := by
+            rcases after_lit hw.2 ha.1 with h0 | ⟨r, h0⟩ <;> rw [h0]
+            · exact refStringStep_close rest
+            · exact refStringStep_open _
+          simp only [encodeL, encode, List.append_assoc, List.length_append] at hl ⊢
+          have hlen : 0 < a.length := List.length_pos_iff.2 hane
+          match n, hl with
+          | m + 1, hl =>
+            rw [refItems_run hane (plain_of_all hp.1) hstop,
+              ihA ts rest hw.2 ha.2 hp.2 (by simp only [List.length_append]; omega)]
+            rfl
+        | ref q =>
+          simp only [encodeL, encode, List.cons_append, List.append_assoc, List.nil_append,
+            List.length_cons, List.length_append] at hl ⊢
+          have hB := ihB q (encodeL ts ++ '}' :: rest) hw.1 hp.1
+            (by simp only [List.length_append, List.length_cons]; omega)
+          rw [refItems_ref hB,
+            ihA ts rest hw.2 ha.2 hp.2 (by simp only [List.length_append, List.length_cons]; omega)]
+          rfl
+        | combined q => simp [Token.wfInner] at hw
+    · intro q rest hw hp hl
+      simp only [Token.wfInner, Bool.and_eq_true] at hw
+      obtain ⟨⟨h1, h2⟩, h3⟩ := hw
+      have hne : q ≠ [] := by intro h0; subst h0; simp at h1
+      have hA := ihA q rest h3 h2 hp (by omega)
+      rw [reference_of_refItems hA hne, coalesce_of_noAdjLit q h2]
+
+theorem reference_roundtrip {n : Nat} {q : List Token} {rest : Str}
+    (hw : (Token.ref q).wfInner = true) (hp : plainToks q = true)
+    (hl : (encodeL q ++ '}' :: rest).length + 3 ≤ n) :
+    reference n ('$' :: '{' :: (encodeL q ++ '}' :: rest)) = .ok (.ref q, rest) :=
+  (roundtrip_aux n).2 q rest hw hp hl
+
+theorem items_roundtrip : ∀ (n : Nat) (ps : List Token), Token.wfInnerL ps = true →
+    noAdjLit ps = true → plainToks ps = true → (encodeL ps).length + 2 ≤ n →
+    items n (encodeL ps) = .ok (ps, []) := by
+  intro n
+  induction n with
+  | zero => intros; omega
+  | succ n ih =>
+    intro ps hw ha hp hl
+    cases ps with
+    | nil =>
+      simp only [encodeL, List.length_nil] at hl ⊢
+      match n, hl with
+      | m + 1, _ => exact items_nil
+    | cons t ts =>
+      simp only [Token.wfInnerL, Bool.and_eq_true] at hw
+      simp only [noAdjLit, Bool.and_eq_true, Bool.not_eq_true'] at ha
+      simp only [plainToks, Bool.and_eq_true] at hp
+      cases t with
+      | lit a =>
+        simp only [Token.isLit, Bool.true_and] at ha
+        have hane : a ≠ [] := by
+          intro h0; subst h0; simp [Token.wfInner] at hw
+        have hstop : contentStep (encodeL ts) = none := by
+          rcases after_lit hw.2 ha.1 with h0 | ⟨r, h0⟩ <;> rw [h0]
+          · exact contentStep_nil
+          · exact contentStep_open _
+        simp only [encodeL, encode, List.length_append] at hl ⊢
+        have hlen : 0 < a.length := List.length_pos_iff.2 hane
+        have hpa := plain_of_all hp.1
+        match n, hl with
+        | m + 1, hl =>
+          rw [items_run hane (fun c hc => ⟨(hpa c hc).1, (hpa c hc).2.1⟩) hstop,
+            ih ts hw.2 ha.2 hp.2 (by omega)]
+          rfl
+      | ref q =>
+        simp only [encodeL, encode, List.cons_append, List.append_assoc, List.nil_append,
+          List.length_cons, List.length_append] at hl ⊢
+        have hB := reference_roundtrip (n := n) (rest := encodeL ts) hw.1 hp.1
+          (by simp only [List.length_append, List.length_cons]; omega)
+        rw [items_ref hB, ih ts hw.2 ha.2 hp.2 (by omega)]
+        rfl
+      | combined q => simp [Token.wfInner] at hw
+
+/-- **Round trip.**  Every well-formed token tree (`Token.wfTop`: the shape invariant that
+`parse_wf` shows all parse results have) whose literal text avoids `$`, `\`, `}` is the
+parse of its own concrete syntax, at any fuel `≥ length + 2`.  In particular arbitrarily
+deeply nested references such as `${a${b}}` are accepted with the expected structure. -/
+theorem roundtrip (t : Token) (hw : t.wfTop = true) (hp : plainTok t = true) (n : Nat)
+    (hn : (encode t).length + 2 ≤ n) : parseRefF n (encode t) = .ok t := by
+  cases t with
+  | lit a =>
+    have h := items_roundtrip n [.lit a] (by simpa [Token.wfInnerL, Token.wfTop] using hw) rfl
+      (by simpa [plainToks, plainTok] using hp) (by simpa [encodeL, encode] using hn)
+    simp only [encodeL, encode, List.append_nil] at h
+    rw [encode, parseRefF_of_items h (by simp)]
+    rfl
+  | ref q =>
+    have h := items_roundtrip n [.ref q] (by simpa [Token.wfInnerL, Token.wfTop] using hw) rfl
+      (by simpa [plainToks, plainTok] using hp) (by simpa [encodeL, encode] using hn)
+    simp only [encodeL, List.append_nil] at h
+    rw [parseRefF_of_items h (by simp)]
+    rfl
+  | combined ps =>
+    simp only [Token.wfTop, Bool.and_eq_true, decide_eq_true_eq] at hw
+    obtain ⟨⟨h1, h2⟩, h3⟩ := hw
+    have h := items_roundtrip n ps h3 h2 (by simpa [plainTok] using hp)
+      (by simpa [encode] using hn)
+    have hne : ps ≠ [] := by intro h0; subst h0; simp at h1
+    rw [encode, parseRefF_of_items h hne, coalesce_of_noAdjLit ps h2]
+    match ps, h1 with
+    | a :: b :: r, _ => rfl
+
+/-- Round trip through `Token::parse` (which only runs the grammar when a marker is
+present; a plain tree has one exactly when it is not a bare literal). -/
+theorem roundtrip_parse (t : Token) (hw : t.wfTop = true) (hp : plainTok t = true)
+    (hm : containsMarker (encode t) = true) : Token.parse (encode t) = .ok (some t) :=
+  parse_ok_of hm (roundtrip t hw hp _ (Nat.le_refl _))
+
 end C06
 end Reclass
